@@ -64,7 +64,24 @@ CLAIMS.update({
             "custom 4/6-tuples + list), repr form and join string is tokenised into segment indexes and compared by TLC.",
             "5 C16"),
 })
-QUERY = {"C06", "C08", "C09", "C10", "C15", "C16"}
+CLAIMS.update({
+    "C05": ("TLC checks Decode(Encode(S)) = Canon(S) on every labelled forest in the bound (clones at every relative "
+            "position incl. below a sibling of the first occurrence, clones of differing kind, explicit ids); every such "
+            "state is saved and loaded with the loading class under the option grid key_map x value_map x compression x "
+            "path/stream x callback/derived-class mappers (quick: rotating sample, thorough: full grid) for string, "
+            "object and unicode data, plain and typed; TLC compares the loaded content (shape, order, data as rebuilt, "
+            "data_ids, kinds), class, returned file meta and the untouched source with Canon(S).", "5 C05"),
+    "C12": ("Writing side: each written file is decoded by the harness with exactly the maps its header declares and TLC "
+            "compares the node list with Encode(S) (pre-order, 1-based parent positions, clone references iff same kind "
+            "as first occurrence, payload shape, header facts). Reading side: documents rendered by an independent "
+            "encoder from TLC's Encode(S) under several key/value maps, the literal documents of the user guide, and "
+            "malformed headers are loaded; TLC compares the loaded content / the rejection.", "5 C12"),
+    "C14": ("TLC checks FromDict(ToDictList(S)) = Canon(S) on every labelled forest in the bound; to_dict_list() "
+            "(strings without mapper, objects with an inverse mapper pair, explicit ids, unicode, after clear(), through "
+            "json dumps/loads) is normalised and compared by TLC with ToDictList(S), and from_dict() of it with Canon(S).",
+            "5 C14"),
+})
+QUERY = {"C05", "C06", "C08", "C09", "C10", "C12", "C14", "C15", "C16"}
 TECHNIQUE = "TLA+ spec + TLC model checking; spec->code transition replay and code->spec trace validation by TLC"
 
 
